@@ -946,6 +946,9 @@ func (args LazyArgumentMap) Path(p string, source, dest syntax.Type,
 	case *syntax.TypedMapType:
 		if d, ok := dest.(*syntax.TypedMapType); ok {
 			dest = d.Elem
+		} else {
+			// An untyped map says nothing about its values.
+			dest = nil
 		}
 		result := make(MarshalerMap, len(args))
 		var errs syntax.ErrorList
